@@ -35,6 +35,10 @@ U = '<UNDEF>'
 DURSTR = {'1.5s': 1.5, '0m2s': 2.0, '0.5s': 0.5, '1s': 1.0, '0h0m1.0s': 1.0, '2,5 s': 2.5}
 
 
+# constant results of generated conditions: any false value refuses, any true value permits
+COND_RESULT = {'c0': 0, 'c1': 1, 'cnone': None, 'cempty': '', 'clist': [0]}
+
+
 def dur_value(d):
     if d is None:
         return None
@@ -160,7 +164,8 @@ class Model:
                 results.append(True)
             else:
                 self.hook('cond', who, ev, data)
-                results.append(bool(data.get('ok', 1)) if kind == 'data' else kind == 'c1')
+                results.append(bool(COND_RESULT[kind]) if kind in COND_RESULT else
+                               bool(data.get('ok', 1)) if kind == 'data' else kind == 'c1')
         return all(results)
 
     def run_exit(self, state, data):
@@ -426,7 +431,7 @@ def build_fsm(desc, log, clock):
             if kind == 'cond':
                 if script == 'data':
                     return data.get('ok', 1) if isinstance(data, dict) else 1
-                return 1 if script == 'c1' else 0
+                return COND_RESULT[script]
             if kind == 'enter':
                 f.sdata['n'] = f.sdata.get('n', 0) + 1
                 f.sdata['_p'] = name
@@ -720,8 +725,10 @@ def fsm_desc(draw, max_states=3, max_events=2, timers=False, chains=True, grid=0
     desc = {
         'lib': None, 'states': states, 'events': events, 'rules': rules, 'timers': tm,
         'inst_t': {s: v for s, v in inst_t.items() if v is not None},
-        'cond': {ev: draw(st.sampled_from([None, None, 'data', 'c0', 'c1'])) for ev in events},
-        'icond': {ev: draw(st.sampled_from([None, None, None, 'data', 'c1'])) for ev in events},
+        'cond': {ev: draw(st.sampled_from([None, None, None, 'data', 'data', 'c0', 'c1', 'c1', 'cnone', 'clist']))
+                 for ev in events},
+        'icond': {ev: draw(st.sampled_from([None, None, None, None, 'data', 'data', 'c1', 'c1', 'cnone', 'cempty',
+                                            'clist'])) for ev in events},
         'enter': {}, 'ienter': {s: draw(hookkind) for s in states},
         'exit': {s: draw(hookkind) for s in states}, 'iexit': {s: draw(hookkind) for s in states},
         'outmap': None, 'initdef': draw(st.sampled_from([None] + states)),
